@@ -669,7 +669,7 @@ func (x *Exec) analyseLoop(fr *Frame, nodes ...ast.Node) loopInfo {
 
 // loopGhosts: ghost arrays that are havocked at the head of a loop whose body may write ghost state.
 var loopGhosts = []string{"httpstatus", "httpwrites", "respbody", "httperrs", "callcount", "gocount", "golastarg", "mapsum",
-	"fsinode", "isize", "icontent", "handleinode", "jexp", "connreader", "tickerival", "buflen", "bufcontent"}
+	"fsinode", "isize", "icontent", "handleinode", "jexp", "connreader", "bodypending", "tickerival", "buflen", "bufcontent"}
 
 func (x *Exec) havocForLoop(fr *Frame, st *State, li loopInfo) {
 	if li.ghostAll || len(li.ghosts) > 0 {
@@ -1248,7 +1248,9 @@ func (x *Exec) callWritesGhost(fr *Frame, c *ast.CallExpr) (all bool, names []st
 			"net/http.ResponseWriter.":             {"httpstatus", "httpwrites"},
 			"net/http.Error":                       {"httpstatus", "httpwrites"},
 			"net/http.Client.Do":                   {"upstream"},
-			"net/http.ReadRequest":                 {"connreader"},
+			"net/http.ReadRequest":                 {"connreader", "bodypending"},
+			"io.ReadCloser.Close":                  {"bodypending"},
+			"io.Closer.Close":                      {"bodypending"},
 			"crypto/tls.Server":                    {"connreader"},
 			"os.":                                  {"fsinode", "isize", "icontent", "handleinode"},
 			"io.Copy":                              {"isize", "icontent"},
